@@ -566,6 +566,10 @@ func selftestMain(args []string) int {
 				}
 			}
 			status := "ok  "
+			if strings.Contains(out, "mutant error") {
+				okMut = false
+				fmt.Printf("     %s does not apply: %s\n", filepath.Base(f), strings.TrimSpace(out))
+			}
 			if !okMut {
 				status = "BAD "
 				bad++
